@@ -955,6 +955,7 @@ func ruleBijection(c *Ctx, rule string) {
 		return ia.Index, true
 	}
 	seen := map[*ssa.Parameter]bool{}
+	weak := map[*ssa.Parameter]token.Pos{}
 	n := 0
 	for _, b := range fn.Blocks {
 		ifi, ok := b.Instrs[len(b.Instrs)-1].(*ssa.If)
@@ -971,6 +972,15 @@ func ruleBijection(c *Ctx, rule string) {
 					if p := origin(stripConv(i2), 0); p != nil {
 						seen[p] = true
 						n++
+						// a mismatch on this side alone must reject: the edge on which the round trip fails leads
+						// straight to the error, not to a second test that can still let the definition through
+						mismatch := 0
+						if bo.Op == token.EQL {
+							mismatch = 1
+						}
+						if !rejectsFrom(b, b.Succs[mismatch]) {
+							weak[p] = bo.Pos()
+						}
 					}
 				}
 			}
@@ -1016,7 +1026,9 @@ func ruleBijection(c *Ctx, rule string) {
 	}
 	for _, prm := range fn.Params {
 		key := "alphabet.NewPairing/involution-checked-for-" + prm.Name()
-		if seen[prm] {
+		if pos, isWeak := weak[prm]; isWeak {
+			c.bad(rule, key, pos, "a failed round trip pair[pair[x]] != x for a letter of definition string "+prm.Name()+" does not reject the definition by itself: the error is returned only if another test fails as well, so a pairing that is one-directional on this side (\"a\"->\"t\" without \"t\"->\"a\") is accepted and its complement is not an involution")
+		} else if seen[prm] {
 			c.ok(rule, key, fn.Pos(), "pair[pair[x]] == x is tested for the letters of this definition string")
 		} else {
 			c.bad(rule, key, fn.Pos(), "the round trip pair[pair[x]] == x is not tested for the letters of definition string "+prm.Name()+": one-directional or many-to-one pairings such as (\"ac\",\"tg\") or (\"ab\",\"cc\") are accepted, and their complement is not an involution")
@@ -1903,19 +1915,27 @@ func rulePadFromEnds(c *Ctx, rule string) {
 func ruleSignRound(c *Ctx, rule string) {
 	p := c.pkg("alphabet")
 	n := 0
+	nPhred := 0
 	for _, f := range srcFuncs(c.SPkgs[p.PkgPath]) {
 		for _, b := range f.Blocks {
 			for _, ins := range b.Instrs {
 				cv, ok := ins.(*ssa.Convert)
-				if !ok || !isNamed(cv.Type(), p.PkgPath, "Qsolexa") {
+				if !ok || !(isNamed(cv.Type(), p.PkgPath, "Qsolexa") || isNamed(cv.Type(), p.PkgPath, "Qphred")) {
 					continue
 				}
 				if bt, ok := cv.X.Type().Underlying().(*types.Basic); !ok || bt.Info()&types.IsFloat == 0 {
 					continue
 				}
-				n++
+				unsigned := isNamed(cv.Type(), p.PkgPath, "Qphred")
 				c.Funcs[funcName(f)] = true
-				key := fmt.Sprintf("%s/float-to-Qsolexa#%d", funcName(f), n)
+				var key string
+				if unsigned {
+					nPhred++
+					key = fmt.Sprintf("%s/float-to-Qphred#%d", funcName(f), nPhred)
+				} else {
+					n++
+					key = fmt.Sprintf("%s/float-to-Qsolexa#%d", funcName(f), n)
+				}
 				plus, minus, round := false, false, false
 				var halves []*ssa.BinOp
 				seen := map[ssa.Value]bool{}
@@ -1981,6 +2001,10 @@ func ruleSignRound(c *Ctx, rule string) {
 					}
 				}
 				switch {
+				case unsigned && (round || plus):
+					c.ok(rule, key, cv.Pos(), "half a unit is added (or the value rounded) before the truncating conversion to the unsigned Phred score")
+				case unsigned:
+					c.bad(rule, key, cv.Pos(), "a float is truncated to the Phred score without adding 0.5 first: the conversion rounds down, so a converted score is not the analytic value rounded to the nearest integer (Solexa 9 becomes Phred 9 instead of 10)")
 				case wrongTest != "":
 					c.bad(rule, key, cv.Pos(), "the half added before truncation is chosen by a test on "+wrongTest+", not on the sign of the value being rounded: negative values then get +0.5 and are rounded towards zero (−5.87 becomes −5), so the low entries of the conversion are not the analytic value rounded to nearest")
 				case round || (plus && minus):
